@@ -7,7 +7,7 @@ REQUIRED = ["CifModel.C02_text_protocol", "CifModel.C02_fold_line_progress", "Ci
             "CifModel.C02_value_presented", "CifModel.C02_value_roundtrip", "CifModel.C02_unquoted_stays_unquoted",
             "CifModel.C02_total", "CifModel.C02_total_no_tables", "CifModel.C02_line_bound",
             "CifModel.C02_bare_value", "CifModel.C02_parse_value_roundtrip", "CifModel.C02_parse_item_roundtrip",
-            "CifModel.C02_roundtrip_doc", "CifModel.C02_roundtrip_doc_instance", "CifModel.C02_roundtrip_doc_sample",
+            "CifModel.C02_roundtrip_doc", "CifModel.C02_quoted_status", "CifModel.C02_output_units", "CifModel.C02_roundtrip_doc_instance", "CifModel.C02_roundtrip_doc_sample",
             "CifModel.C02_roundtrip_doc_nested"]
 GEN = ["WriterConsts", "ErrCodes"]
 FAMILIES = ["decode", "writeval", "write"]
@@ -22,6 +22,9 @@ TRUSTED_BASE = [
 ]
 ASSUMPTIONS = [
     "the output stream never fails (every u_fprintf/u_fputc succeeds)",
+    "'the bytes written are valid UTF-8': the model's output is the sequence of UTF-16 units handed to the UFILE; C02_output_units proves it "
+    "well-formed UTF-16 (no unpaired surrogate) of CIF 2.0 characters; the conversion of well-formed UTF-16 to valid UTF-8 is ICU's "
+    "(u_fprintf on a UTF-8 UFILE) and is assumed — observed per case: family write decodes the bytes strictly as UTF-8",
     "strings contain no NUL and, for the text protocol theorems, no CR (C02 is stated for CR-free strings)",
     "the order in which the store enumerates blocks, frames, loops, packets and items is an input of the writer model (observed per case)",
     "decode_text is modelled for a scanner without extra whitespace / end-of-line characters",
@@ -32,7 +35,10 @@ PARTIAL = [
     "characters, valid codes / names / keys, the scalar loop has one packet, an unquoted number that fits a line is a whitespace-delimited "
     "value), blocksN (valid and pairwise different codes and names, loops with header and packets) and containersL (C02_line_bound's "
     "hypotheses); restricted to ONE level of save frames (what Spec/Grammar documents express); the unrestricted statement stays visible as "
-    "C02_roundtrip_doc_full; the quoted flag of an unquoted value may change (known finding F-unquoted-overlong)",
+    "C02_roundtrip_doc_full; quoted status is part of the equivalence (backV): quoted stays quoted, an unquoted string stays unquoted whenever the writer's "
+    "test bareWritable holds — by bareWritable_iff / C02_quoted_status the only unquoted API strings that come back quoted are those "
+    "beginning with ';' (the property's exception) and those longer than a line (known finding F-unquoted-overlong); an unquoted number "
+    "stays unquoted whenever its text fits a line",
     "C02_line_bound is proved for whole documents (both versions, every walk order) in code UNITS (hence characters), under containersL: "
     "codes/names fit a line, strings without NUL/CR, number texts one line of BMP units of any length",
     "C02_total is proved for whole documents (every walk order): writable CIF -> CIF_OK, or CIF_DISALLOWED_VALUE and the CIF holds a table "
